@@ -362,3 +362,49 @@ Proof.
     + rewrite (ProgramCorrect.builtin_ext _ _ IH).
       destruct (str_eqb name (s_ "call")); destruct (builtin (query n ir) name args s) as [[xs e]|]; reflexivity.
 Qed.
+
+(* ------------------------------------------------------------------ Python predicate = the same rows as dynamic facts *)
+
+(* For ARBITRARY rows (variables, repeated variables, nested terms): a Python predicate over the rows, registered for
+   name/k, answers every call exactly as the same rows stored as dynamic facts of name/k do (assert_fact): both are the
+   loop `for row: for _ in unify_arrays(args, fresh copy of row)`.  w: the Python predicate, no stored facts of name/k;
+   w': the stored facts, no function for name/k; everything else the same.  (The name must not be an API name - those are
+   never called as functions but their stored facts are answered - nor a builtin's.) *)
+Record python_vs_dynamic (w w' : world) (name : str) (k : nat) (rows : list frow) (vals : list bool) : Prop := {
+  pd_res : Resolve.reserved name = false;
+  pd_nb : forall c a s0, builtin c name a s0 = None;
+  pd_nc : str_eqb name (s_ "call") = false;
+  pd_py : w_fix w name k = Some (native_rows rows vals);
+  pd_nodyn : w_dyn w name k = [];
+  pd_nofix : w_fix w' name k = None;
+  pd_nofun : find_func (w_ir w') name k = None;
+  pd_novar : w_var w' name = None;
+  pd_dyn : w_dyn w' name k = rows;
+  pd_other : forall n0 k0, key_eq (n0, k0) (name, k) = false ->
+               w_fix w' n0 k0 = w_fix w n0 k0 /\ find_func (w_ir w') n0 k0 = find_func (w_ir w) n0 k0 /\
+               w_dyn w' n0 k0 = w_dyn w n0 k0;
+  pd_var : forall n0, str_eqb n0 name = false -> w_var w' n0 = w_var w n0;
+  pd_novar0 : w_var w name = None
+}.
+
+Theorem python_equals_dynamic_facts w w' name k rows vals : python_vs_dynamic w w' name k rows vals -> world_equiv w w'.
+Proof.
+  intros [Hres Hnb Hnc Hpy Hnodyn Hnofix Hnofun Hnovar Hdyn Hother Hvar Hvs] call name0 args s.
+  destruct (key_eq (name0, length args) (name, k)) eqn:K.
+  - apply key_eq_true in K. injection K as -> <-. unfold nstep. rewrite Hnodyn, Hdyn, Hres. cbn [match_rows].
+    unfold call_function. rewrite Hpy, Hnofix, Hnofun, Hnc, Hnb, Hnovar. rewrite drop_native_rows.
+    destruct (match_rows rows args s) as [zs e]. cbn [app]. destruct e; [reflexivity|]. rewrite app_nil_r. reflexivity.
+  - destruct (Hother _ _ K) as [H1 [H2 H3]]. unfold nstep. rewrite H3.
+    destruct (match_rows (w_dyn w name0 (length args)) args s) as [ds de]. destruct de; [reflexivity|].
+    destruct (Resolve.reserved name0); [reflexivity|].
+    assert (E : call_function call w name0 args s = call_function call w' name0 args s).
+    { unfold call_function. rewrite H1, H2.
+      destruct (str_eqb_spec name0 name) as [->|NE].
+      - rewrite Hvs, Hnovar. reflexivity.
+      - rewrite (Hvar name0 (proj2 (str_eqb_neq name0 name) NE)). reflexivity. }
+    rewrite E. reflexivity.
+Qed.
+
+Corollary python_equals_dynamic_facts_nquery w w' name k rows vals : python_vs_dynamic w w' name k rows vals ->
+  forall n qname args s, nquery n w qname args s = nquery n w' qname args s.
+Proof. intros H. apply world_equiv_nquery. exact (python_equals_dynamic_facts w w' name k rows vals H). Qed.
